@@ -58,10 +58,18 @@ pub struct Shape {
     /// query is registered (so the first opening point is not x itself)
     #[serde(default)]
     pub first_rot: i32,
+    /// rotation at which the "inst" gates query their instance column
+    /// (advice row r == instance row r + inst_rot)
+    #[serde(default)]
+    pub inst_rot: i32,
     /// number of fixed-table lookups (0..=2) and lookup_any arguments (0..=1)
     pub lookups: usize,
     #[serde(default)]
     pub lookup_any: usize,
+    /// fixed tables without the all-zero entry: values are shifted by one, the default (padding) value is 1,
+    /// and the lookup input is q * x + (1 - q) so that inactive rows look up the default
+    #[serde(default)]
+    pub tbl_nozero: bool,
     /// number of additive-selector (trash) arguments (0..=2)
     pub trash: usize,
     /// number of advice columns with equality enabled (0..=3); instance columns
@@ -249,7 +257,7 @@ impl ShapeCircuit {
                 5 => Op::PhaseC { j: c % sh.adv[2].max(1), x },
                 6 => {
                     let i = c % sh.lookups;
-                    Op::Lookup { i, v: table_value(i, x % (1 << TABLE_BITS)) }
+                    Op::Lookup { i, v: table_value(i, x % (1 << TABLE_BITS)) + sh.tbl_nozero as u64 }
                 }
                 7 => {
                     any_vals.push(x + 1);
@@ -463,7 +471,7 @@ impl Circuit<F> for ShapeCircuit {
         for j in 0..sh.inst_used() {
             meta.create_gate("inst", |m| {
                 let x = m.query_advice(a[j], Rotation::cur());
-                let i = m.query_instance(inst[j], Rotation::cur());
+                let i = m.query_instance(inst[j], Rotation(sh.inst_rot));
                 Constraints::with_selector(s_inst[j], vec![x - i])
             });
         }
@@ -526,7 +534,12 @@ impl Circuit<F> for ShapeCircuit {
             meta.lookup("tbl", |m| {
                 let q = m.query_selector(q);
                 let x = m.query_advice(col, Rotation::cur());
-                vec![(q * x, t)]
+                if sh.tbl_nozero {
+                    let one = Expression::Constant(F::ONE);
+                    vec![(q.clone() * x + (one - q), t)]
+                } else {
+                    vec![(q * x, t)]
+                }
             });
             tables.push(t);
             q_lookup.push(q);
@@ -601,7 +614,7 @@ impl Circuit<F> for ShapeCircuit {
                             || "t",
                             *t,
                             r,
-                            || Value::known(F::from(table_value(i, r as u64))),
+                            || Value::known(F::from(table_value(i, r as u64) + sh.tbl_nozero as u64)),
                         )?;
                     }
                     Ok(())
@@ -622,7 +635,10 @@ impl Circuit<F> for ShapeCircuit {
                             {
                                 for (row, v) in col.iter().enumerate() {
                                     let by_copy = sh.inst_copy && sh.perm > 0;
-                                    if !by_copy {
+                                    // by gate: advice row r holds instance row r + inst_rot (where that row exists)
+                                    let src = row as i64 + if by_copy { 0 } else { sh.inst_rot as i64 };
+                                    let v = if src >= 0 && (src as usize) < col.len() { &col[src as usize] } else { v };
+                                    if !by_copy && src >= 0 && (src as usize) < col.len() {
                                         cfg.s_inst[j].enable(&mut r, row)?;
                                     }
                                     let c = r.assign_advice(|| "i", cfg.a[j], row, || {
@@ -766,9 +782,11 @@ pub fn random_shape(seed: u64) -> Shape {
         rot_mul: rng.gen_range(0..=1),
         rot_pow: -rng.gen_range(0..=1),
         first_rot: [0, 0, 1, -1][rng.gen_range(0..4)],
+        inst_rot: [0, 0, 1, -1, 2][rng.gen_range(0..5)],
         inst_copy: rng.gen_range(0..3) == 0,
         lookups: rng.gen_range(0..=2),
         lookup_any: rng.gen_range(0..=1),
+        tbl_nozero: rng.gen_range(0..3) == 0,
         trash: rng.gen_range(0..=2),
         perm: rng.gen_range(0..=3),
         seed,
